@@ -200,10 +200,14 @@ class LightDriver(MachineDriver):
                 self.loop.fire_next()
                 n += 1
             if self.busy_until > self.loop.time() + EPS:
-                self.loop.advance(self.busy_until - self.loop.time())
+                self.loop.advance(self.busy_until - self.loop.time() + 1e-4)
             return
         if kind in ("wait", "wait_half"):
             target = self.busy_until if kind == "wait" else now + (self.busy_until - now) / 2.0
+            # never stop exactly on the end of a fade: at that instant the interpolated colour is one step below or at the
+            # destination depending on floating-point noise in the clock (0.001 + 0.15 + 0.15 vs 0.001 + 0.3)
+            if any(abs(target - u) < 1e-6 for u in list(self.until.values()) + list(self.rm_until.values())):
+                target += 1e-4
             self.loop.advance(target - now)
             return
         self.fade_probe = None
